@@ -45,5 +45,7 @@ SEEDED = [
     ("C04-11", "C04-CHR"),
     ("C04-12", "C04-CHR"),
     ("C04-13", "C04-CHR"),
+    ("C04-14", "C04-CHR"),
+    ("C04-15", "C04-CHR"),
 ]
 MUTANTS = list(MUTANTS) + [_P("seed-" + sid, _os.path.join(_SEEDS, sid, "patch.diff"), rule) for sid, rule in SEEDED if _os.path.exists(_os.path.join(_SEEDS, sid, "patch.diff"))]
